@@ -182,7 +182,7 @@ func nonTrivial(f Facts) bool {
 
 func TestGrammar(t *testing.T) {
 	r := evid.R()
-	r.Check(t, r.Scale(12000, 600000), 1, func(t *rapid.T) {
+	r.Check(t, r.Scale(12000, 450000), 1, func(t *rapid.T) {
 		src, facts := genFile(t)
 		c := &Case{Path: "x.proto", Source: src, Imports: depFiles, Origin: "grammar"}
 		v := runOracle(c)
